@@ -257,11 +257,14 @@ def normalise(v):
     if isinstance(v, float):
         return single(v)
     if isinstance(v, str):
-        return str(v) if type(v) is not str else v
+        # (not str(v): a subclass may override __str__)
+        return str.__str__(v) if type(v) is not str else v
     if isinstance(v, (datetime.datetime, time.struct_time)):
         return dt_from_seconds(instant_seconds(v))
     if isinstance(v, dict):
-        return {k: normalise(x) for k, x in v.items()}
+        return {(str.__str__(k) if type(k) is not str and
+                 isinstance(k, str) else k): normalise(x)
+                for k, x in v.items()}
     if isinstance(v, list):
         return [normalise(x) for x in v]
     if isinstance(v, bytearray):
